@@ -471,4 +471,13 @@ static inline int uv__isnan(double d) {
   return (v << 1 >> 53) == 2047 && !!(v << 12);
 }
 
+/* Schedule points for the verification harness in /verif (add-only; expands to
+ * nothing unless the library is built with -DUV_VERIF). */
+#ifdef UV_VERIF
+void uv__verif_point(int n);
+# define UV__VERIF_POINT(n) uv__verif_point(n)
+#else
+# define UV__VERIF_POINT(n) ((void) 0)
+#endif
+
 #endif /* UV_COMMON_H_ */
